@@ -235,7 +235,7 @@ func (p *Parser) led(tokenType tokType, node ASTNode) (ASTNode, error) {
 			}, err
 		}
 		p.advance()
-		right, err := p.parseProjectionRHS(bindingPowers[tDot])
+		right, err := p.parseProjectionRHS(bindingPowers[tStar])
 		return ASTNode{
 			nodeType: ASTValueProjection,
 			children: []ASTNode{node, right},
